@@ -280,3 +280,31 @@ def known_replays(h, ctx):
             worlds.append(w)
             scens.append(scen)
     return worlds, scens
+
+
+def real_leg(ctx, judge, name, quick, rnd):
+    """The same observer specification applied to executions with REAL processes (fidelity check of the shims)."""
+    from adapters import realrun
+    scens = realrun.scenarios(judge, quick, rnd)
+    traces, meta = [], []
+    for s in scens:
+        ev, fin, secs = realrun.run_scenario(s, 60.0)
+        if not fin:
+            ev, fin, secs = realrun.run_scenario(s, 120.0)      # a watchdog expiry is re-run once before it is believed
+        tr, exc = realrun.to_trace(ev, fin)
+        if exc is not None:
+            raise tlc.MachineryError("realrun %s: the scenario process failed: %s" % (s["name"], exc))
+        traces.append(tr)
+        meta.append((s, fin, secs))
+    consts = model.constants_block({"MaxN": 3, "MaxWorkers": 2})
+    verdicts = tracecheck.validate(OBS, consts, traces, ctx, name + "_real")
+    for (s, fin, secs), tr, (matched, total) in zip(meta, traces, verdicts):
+        ctx.traces += 1
+        ctx.case((name, "real", json.dumps(s, sort_keys=True)))
+        if matched != total:
+            ev = tr[matched]["op"]
+            ctx.violation({"kind": "realrun", "scenario": s["name"], "event": ev["op"], "pool": s["pool"]},
+                          "%s (real processes): scenario %s is rejected by the observer specification at event %d %s%s" % (
+                              name, json.dumps(s, sort_keys=True), matched, json.dumps(ev), "" if fin else " (watchdog expired twice)"),
+                          {"engine": "realrun", "scenario": s, "events": [t["op"] for t in tr][:300], "rejected_at": matched})
+    ctx.extra["real_process_executions"] = {"count": len(traces), "seconds": round(sum(m[2] for m in meta), 1)}
